@@ -19,9 +19,13 @@ PREC = {"|": 0, "+": 2, "-": 2, "*": 3, "/": 3, ":": 4, "**": 5}
 CORPUS = ["y ~ (a + b) * (b + a)", "y ~ (a + b) / (c:d + e)", "y ~ f(g(x)) + f(x)",
           "y ~ (a + f(x, 2)) * (b + c)", "y ~ (0 + x | g)", "y ~ (x + 0 | g)", "y ~ a + (b - 1)",
           "y ~ 1 - a", "y ~ (a + b + c) ** 3", "y ~ a / b / c", "y ~ (a + b | g) - (a | g)",
-          "y ~ (x | g / h)", "y ~ a:(a:b + b)", "y ~ f(x, k=2, j=3) + f(x, j=3, k=2)"]
+          "y ~ (x | g / h)", "y ~ a:(a:b + b)", "y ~ f(x, k=2, j=3) + f(x, j=3, k=2)",
+          # found while proving C02_plain_refines: duplicates kept by Model(*terms) exposed by ** and /
+          "y ~ ((p + r + p:q):q) ** 2", "y ~ ((p + r + p:q):q) / z", "y ~ ((b * g) : (d + g)) ** 3",
+          "y ~ (a + b) ** 01", "y ~ (a + b) ** 02", "a | (g + h) * (g + k)"]
 FINDING = {"D3": "KF-C02-D3", "D4": "KF-C02-D4", "D5": "KF-C02-D5", "D22": "KF-C02-D22",
-           "D24": "KF-C02-D24"}
+           "D24": "KF-C02-D24", "D25": "KF-C02-D25",
+           "D26": "KF-C02-D26"}
 
 
 def render(t, need=-1):
@@ -151,6 +155,25 @@ def explore(tier, seed, res=None, replay=None):
             mismatch = True
         if mismatch:
             res.mismatches.append({"case": case, "impl": io, "model": m})
+        # model-vs-spec cross-check: what C02_refines_partial says can never happen — a formula of
+        # the documented language outside every gap class that the model resolves to something
+        # whose reading (semOfModel) is not semEq to the denotation, ordered factor lists included
+        if sp.get("lang"):
+            # the shape hypothesis of C02_refines_partial (right-hand side starts with the implicit
+            # `1`, or the formula is one bare `eff | grp`): every scanned formula of the language
+            # must satisfy it (a test of the scanner/parser, the theorem assumes it)
+            res.count("scanner_shape:" + str(mo.get("scanner_shape")))
+            if mo.get("scanner_shape") is not True:
+                res.mismatches.append({"case": case, "impl": io, "model": m,
+                                       "why": "a scanned formula of the documented language is "
+                                              "outside the shape C02_refines_partial covers"})
+        if sp.get("lang") and not m_err and not mo.get("classes"):
+            res.count("sem_ok:" + str(m.get("sem_ok")))
+            if m.get("sem_ok") is not True:
+                res.mismatches.append({"case": case, "impl": io, "model": m,
+                                       "why": "model-vs-spec: semEq (semOfModel (describe e)) "
+                                              "(den e) is not true outside the gap classes "
+                                              "(contradicts theorem C02_refines_partial)"})
         res.count("impl:" + ("error:" + io["err"] if i_err else "ok"))
         if sp.get("lang"):
             res.count("lang")
